@@ -420,6 +420,11 @@ class KmipEngine(object):
                         "information."
                     )
 
+                if error_occurred:
+                    # Discard whatever the failed item left uncommitted, so
+                    # that a later commit cannot make it permanent.
+                    self._data_session.rollback()
+
                 # Compose operation result.
                 result_status = contents.ResultStatus(result_status)
                 if result_reason:
